@@ -150,32 +150,19 @@ theorem C20_export_object_fills_image (f : FitTo) (page : Nat × Nat) (bx by_ : 
     · simp only [fitToScale, hsz, id]; field_simp
 
 /-- **--export-id --export-area-page**: the written image has the size, and the object the scale, of the
-    ordinary rendering of the page with the same options; the object sits at its box scaled by that
-    scale, truncated to a pixel (so less than a pixel from the exact position, toward the origin). -/
+    ordinary rendering of the page with the same options; the object sits exactly at its box scaled by that
+    scale (it is rendered in place — no rounding to whole pixels, fix b316a01). -/
 theorem C20_export_page_geometry (f : FitTo) (page : Nat × Nat) (bx by_ bw bh : Rat) (p : ExportPlan)
     (hp : exportPlan id f page bx by_ bw bh true = some p) :
     fitToSize id f page = some p.canvas ∧ p.scale = fitToScale id f page ∧
-    ((p.offset.1 : Rat) ≤ bx * p.scale.1 ∧ bx * p.scale.1 < p.offset.1 + 1 ∨ bx * p.scale.1 < 0) ∧
-    ((p.offset.2 : Rat) ≤ by_ * p.scale.2 ∧ by_ * p.scale.2 < p.offset.2 + 1 ∨ by_ * p.scale.2 < 0) := by
+    p.offset.1 = bx * p.scale.1 ∧ p.offset.2 = by_ * p.scale.2 := by
   simp only [exportPlan, if_true] at hp
   cases hsz : fitToSize id f page with
   | none => simp [hsz] at hp
   | some o =>
     simp only [hsz, Option.some.injEq] at hp
     subst hp
-    refine ⟨rfl, rfl, ?_, ?_⟩
-    · simp only [id, truncI]
-      by_cases h0 : 0 ≤ bx * (fitToScale id f page).1
-      · left
-        simp only [h0, if_true, Lemmas.rat_floor_eq]
-        exact ⟨Int.floor_le _, Int.lt_floor_add_one _⟩
-      · right; exact not_le.mp h0
-    · simp only [id, truncI]
-      by_cases h0 : 0 ≤ by_ * (fitToScale id f page).2
-      · left
-        simp only [h0, if_true, Lemmas.rat_floor_eq]
-        exact ⟨Int.floor_le _, Int.lt_floor_add_one _⟩
-      · right; exact not_le.mp h0
+    exact ⟨rfl, rfl, rfl, rfl⟩
 
 /-- before the fix: `-w 60` on a 20×10 object of a 120×100 page wrote a 60×30 image in which the object
     covered 10×5 pixels, and `-z 2 --export-area-page` placed the object at (40, 30) instead of (80, 60) -/
